@@ -5,9 +5,10 @@ next one. The bytes up to such a position are the layout of the first `i` frames
 -/
 import MRL.Proofs.LTape
 import MRL.Proofs.HTornScan
+import MRL.Proofs.LItems
 
 namespace MRL.L
-open MRL Codec Consts G H
+open MRL Codec Consts G H Torn
 
 theorem frameWrites_length (g : Geom) (c : Nat) (t : FrameType) (p : Bytes) :
     (g.B - c < 7 ∧ frameWrites g c t p = [zeros (g.B - c), encodeFrame t p]) ∨
@@ -33,7 +34,7 @@ theorem bufs_prefix (g : Geom) : ∀ (fs : List Frm) (p j : Nat), Fits g (p % g.
     rw [Fits_pos_cons] at hf
     rw [layoutBufs_pos_cons g p fr fs hf.1] at hj ⊢
     have htot := totalLen_frameWrites g p fr.1 fr.2
-    have hmB : p % g.B < g.B := Nat.mod_lt _ (by have := Bpos g; omega)
+    have hmB : p % g.B < g.B := Nat.mod_lt _ (by have := G.Bpos g; omega)
     by_cases hjk : (frameWrites g (p % g.B) fr.1 fr.2).length ≤ j
     · -- the whole frame is written
       rw [List.take_append, List.take_of_length_le hjk, totalLen_append, ← Nat.add_assoc, htot]
@@ -80,5 +81,52 @@ theorem layout_take_pad (g : Geom) (A Bf : List Frm) (hf : Fits g 0 (A ++ Bf)) (
       rwa [zero_mod] at this
     rw [hcur, layout_hdrPos g _ Bf hB]
     exact take_zeros_append _ _ _ (by omega)
+
+/-! ### the same for items -/
+
+theorem endCursor_frs (g : Geom) (A : List AItm) (hf : Fits g 0 (frs A)) :
+    endCursor g 0 (frs A) = endPos g 0 (frs A) % g.B := by
+  have := endCursor_pos g (frs A) 0 (by rw [zero_mod]; exact hf)
+  rwa [zero_mod] at this
+
+theorem padLen_hdrPos (g : Geom) (p : Nat) : padLen g (hdrPos g p % g.B) = 0 := by
+  have := hdrPos_room g p
+  unfold padLen; simp only [HEADER_LEN]; rw [if_neg (by omega)]
+
+/-- the bytes of a tape of items up to the end of a prefix of the items (and of the padding) -/
+theorem flatJ_take_pad (g : Geom) (A Bi : List AItm) (hr : ∀ a ∈ A ++ Bi, RawLen a) (hf : Fits g 0 (frs (A ++ Bi)))
+    (m : Nat) (h1 : endPos g 0 (frs A) ≤ m) (h2 : m ≤ hdrPos g (endPos g 0 (frs A)))
+    (h3 : m ≤ endPos g 0 (frs (A ++ Bi))) :
+    (flatJ g 0 (A ++ Bi)).take m = flatJ g 0 A ++ zeros (m - endPos g 0 (frs A)) := by
+  have hfA : Fits g 0 (frs A) := by rw [frs_append, Fits_append] at hf; exact hf.1
+  have hLA : (flatJ g 0 A).length = endPos g 0 (frs A) :=
+    flatJ0_len g A (fun a ha => hr a (List.mem_append_left _ ha)) hfA
+  by_cases hB : Bi = []
+  · subst hB
+    rw [List.append_nil] at h3 ⊢
+    have : m = endPos g 0 (frs A) := by omega
+    rw [this, ← hLA, List.take_length, Nat.sub_self]; simp [zeros]
+  · rw [flatJ_append, List.take_append, hLA, List.take_of_length_le (by omega)]
+    congr 1
+    rw [endCursor_frs g A hfA, flatJ_hdrPos g _ Bi hB]
+    exact take_zeros_append _ _ _ (by omega)
+
+/-- … and up to a cut inside the slot of the next item -/
+theorem flatJ_take_slot (g : Geom) (A : List AItm) (a : AItm) (Bi : List AItm) (hr : ∀ x ∈ A, RawLen x)
+    (hfA : Fits g 0 (frs A)) (c : Nat) (hc : c ≤ (slot a).length) :
+    (flatJ g 0 (A ++ a :: Bi)).take (hdrPos g (endPos g 0 (frs A)) + c) =
+      flatJ g 0 A ++ zeros (hdrPos g (endPos g 0 (frs A)) - endPos g 0 (frs A)) ++ (slot a).take c := by
+  have hLA : (flatJ g 0 A).length = endPos g 0 (frs A) := flatJ0_len g A hr hfA
+  have hle := le_hdrPos g (endPos g 0 (frs A))
+  rw [flatJ_append, List.take_append, hLA, List.take_of_length_le (by omega), List.append_assoc]
+  congr 1
+  rw [endCursor_frs g A hfA, flatJ_hdrPos g _ (a :: Bi) (by simp)]
+  have e : hdrPos g (endPos g 0 (frs A)) + c - endPos g 0 (frs A) =
+      (hdrPos g (endPos g 0 (frs A)) - endPos g 0 (frs A)) + c := by omega
+  have hfl : flatJ g (hdrPos g (endPos g 0 (frs A)) % g.B) (a :: Bi) =
+      slot a ++ flatJ g (frameEndCursor g (hdrPos g (endPos g 0 (frs A)) % g.B) a.1.2.2.length) Bi := by
+    simp only [flatJ, padLen_hdrPos, zeros, List.replicate_zero, List.nil_append]
+  rw [e, hfl, List.take_append, take_zeros, length_zeros, Nat.min_eq_right (by omega),
+    Nat.add_sub_cancel_left, List.take_append_of_le_length hc]
 
 end MRL.L
